@@ -9,6 +9,7 @@ import (
 	"strings"
 
 	"cosmossdk.io/math"
+	storetypes "cosmossdk.io/store/types"
 	sdk "github.com/cosmos/cosmos-sdk/types"
 
 	"github.com/noble-assets/orbiter/v2/types/core"
@@ -233,7 +234,8 @@ func (w *World) storeDigest(ctx sdk.Context) string {
 		if _, ok := k.(interface{ String() string }); !ok {
 			continue
 		}
-		if k.Name() == "mem_capability" {
+		// only committed (consensus) stores: memory and transient stores are process-local
+		if _, ok := k.(*storetypes.KVStoreKey); !ok {
 			continue
 		}
 		func() {
